@@ -9,6 +9,20 @@
 //! shape — every (resample, slot) → position cell at small shapes of all parities, and every position
 //! frequency at lengths 600..2000 (see "uniformity with power" below).
 //! Repeated and special values are compared as multisets of bit patterns.
+//!
+//! "Every random stream" is additionally probed where no census of ordinary seeds reaches:
+//!   * fault injection (`inject:*` regimes): the library generator is put into a state after which the
+//!     (k+1)-th raw word has an all-ones / all-zero 32-bit half (`gen::ADVERSARIAL_ALEA`), k = 0..5 and
+//!     random positions inside the call, at lengths 1..2000 (incl. 1500, 2000) — an index sampler with an
+//!     inclusive end point produces `len` on such a word (probability 2^-32 per draw) and the resampler
+//!     indexes out of bounds;
+//!   * a pairing census (`pairs:*` regimes): 65 536 (thorough 655 360) seeded `shuffle_two` calls at the
+//!     top of the length range (half at 2000, half in 1000..=2000) with x increasing and y decreasing
+//!     (any value-dependent tie-break between equal random sort keys orders the two arrays differently)
+//!     or two independent permutations; every call is checked exactly (pair multiset), no statistics.
+//!     Detection: a defect that unpairs a call with probability q is missed with probability
+//!     (1-q)^calls; for q = 5e-4 (a 32-bit key collision among 2000 keys: 2000²/2^33 = 4.7e-4) that is
+//!     exp(-32.8) = 6e-15 in the quick tier (the 49 152 anti-monotone calls alone: 2e-11).
 use crate::gen::{Rng, SPECIALS};
 use crate::oracle::stats;
 use crate::report::{guard, jf, par_cases, Cfg, Hasher, Report};
@@ -93,8 +107,9 @@ fn regime_of(d: &Data) -> &'static str {
 
 // ---------------------------------------------------------------------------------------------
 
-fn check_bootstrap(rep: &mut Report, d: &Data, nb: usize, seed: u64) {
-    let regime = regime_of(d);
+fn check_bootstrap(rep: &mut Report, d: &Data, nb: usize, seed: u64, tag: &str) {
+    let regime_s = format!("{}{}", tag, regime_of(d));
+    let regime = regime_s.as_str();
     let n = d.x.len();
     rep.case(regime);
     rep.seen(&format!("cover:bootstrap:{}", regime), 1);
@@ -196,8 +211,9 @@ fn check_bootstrap(rep: &mut Report, d: &Data, nb: usize, seed: u64) {
     rep.check("C19.bootstrap.uniform_indices", regime, failures.is_empty(), || head(json!({"failed": failures, "counts_first": counts[..n.min(32)]})));
 }
 
-fn check_jackknife(rep: &mut Report, d: &Data) {
-    let regime = regime_of(d);
+fn check_jackknife(rep: &mut Report, d: &Data, tag: &str) {
+    let regime_s = format!("{}{}", tag, regime_of(d));
+    let regime = regime_s.as_str();
     let n = d.x.len();
     rep.case(regime);
     rep.seen(&format!("cover:jackknife:{}", regime), 1);
@@ -224,8 +240,9 @@ fn check_jackknife(rep: &mut Report, d: &Data) {
     rep.check("C19.jackknife.leave_one_out", regime, bad.is_none(), || head(json!({"vector": bad, "got": jf(&out[bad.unwrap()]), "expected": "data without that element, in order"})));
 }
 
-fn check_shuffle(rep: &mut Report, d: &Data, seed: u64, gross: bool) {
-    let regime = regime_of(d);
+fn check_shuffle(rep: &mut Report, d: &Data, seed: u64, gross: bool, tag: &str) {
+    let regime_s = format!("{}{}", tag, regime_of(d));
+    let regime = regime_s.as_str();
     let n = d.x.len();
     rep.case(regime);
     rep.seen(&format!("cover:shuffle:{}", regime), 1);
@@ -255,8 +272,9 @@ fn check_shuffle(rep: &mut Report, d: &Data, seed: u64, gross: bool) {
     }
 }
 
-fn check_shuffle_two(rep: &mut Report, d: &Data, seed: u64) {
-    let regime = regime_of(d);
+fn check_shuffle_two(rep: &mut Report, d: &Data, seed: u64, tag: &str) {
+    let regime_s = format!("{}{}", tag, regime_of(d));
+    let regime = regime_s.as_str();
     let n = d.x.len();
     rep.case(regime);
     rep.seen(&format!("cover:shuffle_two:{}", regime), 1);
@@ -543,11 +561,123 @@ fn position_census(cfg: &Cfg, rep: &mut Report) {
     }
 }
 
+// ---------------------------------------------------------------------------------------------
+// "every random stream": fault injection on the library generator
+
+/// bootstrap / shuffle / shuffle_two (and the jackknife, which must not care) under generator states
+/// whose (k+1)-th raw word has an extreme 32-bit half. All ordinary per-call checks apply.
+fn inject_family(cfg: &Cfg, rep: &mut Report) {
+    use crate::gen::{adversarial_seed, ADVERSARIAL_ALEA};
+    let fixed: &[usize] = if cfg.miri() { &[1, 2, 5] } else { &[1, 2, 3, 5, 16, 100, 255, 256, 257, 1000, 1024, 1500, 1999, 2000] };
+    let n_random = cfg.pick(10, 100, 0);
+    par_cases(cfg, rep, 5, fixed.len() + n_random, |i, rng, rep| {
+        let n = if i < fixed.len() { fixed[i] } else { rng.usize(2, 2000) };
+        let class = match i % 8 {
+            6 => Class::Repeated,
+            7 => Class::Special,
+            _ => Class::Distinct,
+        };
+        let d = make_data(rng, n, class);
+        let states: &[(&str, u64)] = if cfg.miri() { &ADVERSARIAL_ALEA[..2] } else { ADVERSARIAL_ALEA };
+        for (si, &(_, state)) in states.iter().enumerate() {
+            let nb = 1 + (si + i) % 3;
+            // positions of the extreme word: the first six words of the call, and two anywhere inside it
+            // (bootstrap consumes nb*n words, the shuffles 4n: two indices per transposition)
+            let mut ks: Vec<(u64, u64)> = (0..if cfg.miri() { 2 } else { 6 }).map(|k| (k, k)).collect();
+            if !cfg.miri() && n >= 2 {
+                for _ in 0..2 {
+                    ks.push((rng.usize(0, nb * n - 1) as u64, rng.usize(0, 4 * n - 1) as u64));
+                }
+            }
+            for (kb, ksh) in ks {
+                check_bootstrap(rep, &d, nb, adversarial_seed(state, kb), "inject:");
+                check_shuffle(rep, &d, adversarial_seed(state, ksh), false, "inject:");
+                check_shuffle_two(rep, &d, adversarial_seed(state, ksh), "inject:");
+            }
+        }
+        alea::set_seed(adversarial_seed(states[i % states.len()].1, 0));
+        check_jackknife(rep, &d, "inject:");
+    });
+}
+
+// ---------------------------------------------------------------------------------------------
+// "one common permutation", over many calls at the top of the length range
+
+fn pair_census(cfg: &Cfg, rep: &mut Report) {
+    let chunks = cfg.pick(64, 640, 1);
+    let calls_per_chunk = if cfg.miri() { 2 } else { 1024 };
+    par_cases(cfg, rep, 6, chunks, |i, rng, rep| {
+        let independent = i % 4 == 3;
+        let regime = if independent { "pairs:len>=1000:independent-perms" } else { "pairs:len>=1000:anti-monotone" };
+        let mut seen: Vec<bool> = Vec::new();
+        for c in 0..calls_per_chunk {
+            let n = if cfg.miri() {
+                16
+            } else if c % 2 == 0 {
+                2000
+            } else {
+                rng.usize(1000, 2000)
+            };
+            rep.case(regime);
+            // value = tag + 0.25 (x) / tag + 0.5 (y); position of x-tag t is xpos[t]
+            let (x, y, xpos): (Vec<f64>, Vec<f64>, Vec<usize>) = if independent {
+                let (px, py) = (rng.perm(n), rng.perm(n));
+                let mut xpos = vec![0; n];
+                for (j, &t) in px.iter().enumerate() {
+                    xpos[t] = j;
+                }
+                (px.iter().map(|&t| t as f64 + 0.25).collect(), py.iter().map(|&t| t as f64 + 0.5).collect(), xpos)
+            } else {
+                ((0..n).map(|j| j as f64 + 0.25).collect(), (0..n).map(|j| (n - j) as f64 + 0.5).collect(), (0..n).collect())
+            };
+            let seed = rng.u64() | 1;
+            let head = |obs: Value| json!({"fn": "shuffle_two", "len": n, "x": if independent { jf(&x) } else { json!("j + 0.25, j = 0..len") }, "y": if independent { jf(&y) } else { json!("len - j + 0.5, j = 0..len") }, "alea_seed": seed, "observed": obs});
+            alea::set_seed(seed);
+            let (ox, oy) = match guard(|| shuffle_two(&x, &y)) {
+                Err(msg) => {
+                    rep.check("C19.shuffle_two.no_panic", regime, false, || head(json!({"panic": msg})));
+                    continue;
+                }
+                Ok(o) => o,
+            };
+            rep.check("C19.shuffle_two.no_panic", regime, true, || json!(null));
+            // every output slot names the input position it came from (x); each position exactly once; y follows
+            seen.clear();
+            seen.resize(n, false);
+            let mut lost = ox.len() != n || oy.len() != n;
+            let mut unpaired: Option<(usize, usize)> = None;
+            if !lost {
+                for j in 0..n {
+                    let t = ox[j] - 0.25;
+                    if !(t >= 0.0 && t < n as f64 && t.fract() == 0.0) || seen[xpos[t as usize]] {
+                        lost = true;
+                        break;
+                    }
+                    let src = xpos[t as usize];
+                    seen[src] = true;
+                    if oy[j].to_bits() != y[src].to_bits() && unpaired.is_none() {
+                        unpaired = Some((j, src));
+                    }
+                }
+            }
+            let y_multiset = lost || unpaired.is_none() || bits_sorted(&oy) == bits_sorted(&y);
+            rep.check("C19.shuffle_two.multiset", regime, !lost && y_multiset, || head(json!({"out_len": [ox.len(), oy.len()], "what": "an output is not a permutation of its input"})));
+            rep.check("C19.shuffle_two.pairing", regime, lost || unpaired.is_none(), || {
+                let (j, src) = unpaired.unwrap();
+                head(json!({"first_unpaired_slot": j, "out_x": ox[j], "out_y": oy[j], "x_came_from_input_position": src, "its_partner_was": y[src],
+                            "slots_with_wrong_partner": (0..n).filter(|&q| oy[q].to_bits() != y[xpos[(ox[q] - 0.25) as usize]].to_bits()).count()}))
+            });
+        }
+    });
+}
+
 pub fn run(cfg: &Cfg, rep: &mut Report) {
-    rep.rule = "per case: length n from {1, 2, 3..10, 11..100, 101..2000, 2000, 1..64, 1..2000}, data class (tagged distinct values = random permutation of 0..n plus 0.25; repeated values from a pool of <= 4; special values ±0, ±inf, NaN, subnormals with ties), 1..200 resamples, own alea seed; bootstrap, jackknife, shuffle and shuffle_two are each run and checked. non-trivial = n >= 2; distinct by (data bits, n_bootstrap, seed)".into();
+    rep.rule = "per case: length n from {1, 2, 3..10, 11..100, 101..2000, 2000, 1..64, 1..2000}, data class (tagged distinct values = random permutation of 0..n plus 0.25; repeated values from a pool of <= 4; special values ±0, ±inf, NaN, subnormals with ties), 1..200 resamples, own alea seed; bootstrap, jackknife, shuffle and shuffle_two are each run and checked. non-trivial = n >= 2; distinct by (data bits, n_bootstrap, seed). Fault injection: lengths 1, 2, 3, 5, 16, 100, 255..257, 1000, 1024, 1500, 1999, 2000 and 10 (100) random, 8 adversarial alea states x word position 0..5 and two random positions inside the call, all four functions with the per-call checks. Pairing census: 64 (640) chunks x 1024 seeded shuffle_two calls, lengths 2000 (every second call) and 1000..=2000, x increasing / y decreasing (3 chunks of 4) or independent permutations".into();
     rep.assume("length 0 is outside the quantifier (\"every length from 1 upward\")");
     rep.assume("shuffle uniformity is not part of the property (only 'a permutation of its input'): outcome frequencies for n <= 4 are recorded as evidence; asserted is only gross bias (an outcome that never occurs in >= 2e4 shuffles, a position that never changes in 64 shuffles)");
     rep.assume("bootstrap uniformity is additionally tested on draws pooled over many calls of a fixed shape, alea re-seeded per call: (a) every (resample, slot) -> position cell for len 1..=6 x n_bootstrap 1..=4 (4e4 calls per shape quick, 4e5 thorough) and for 8 (32) shapes with len 7..=64, n_bootstrap 1..=5 in all parity classes (400 (1000) x len calls): no cell empty when its expected count is >= 200 (false alarm < 1e-80), largest cell deviation within the Bernstein bound at 1e-12 Bonferroni-corrected over the cells (rigorous), chi2 over all cells at 1e-12; (b) position frequencies at len 1000, 1500, 2000 and three lengths in 600..2000 drawn per seed, 3.2e7 (2e8) draws pooled per length from calls with 200 resamples: largest position deviation within the Bernstein bound at 1e-12 Bonferroni-corrected over the positions, chi2 over positions at 1e-12 (power: a 3 % weight deficit on a quarter of the positions at len 2000 lies 30 sd beyond the critical value)");
+    rep.assume("fault injection reaches raw generator words with an all-ones / all-zero 32-bit half at a chosen position of the call (the 8 states of gen::ADVERSARIAL_ALEA); other rare words are not injected");
+    rep.assume("pairing census: exact per-call check, no statistics; a defect unpairing a call with probability q is missed with probability (1-q)^65536 in the quick tier (q = 5e-4: 6e-15)");
     rep.assume("bootstrap index uniformity is tested on the pooled draws of one call: DKW band and χ² (bins with expected count >= 16, by contiguous index blocks and by residue classes) at α = 1e-12 each, plus 'every index drawn' when n·exp(−expected) < 1e-12");
     let n_cases = cfg.pick(400, 10_000, 4);
     par_cases(cfg, rep, 1, n_cases, |i, rng, rep| {
@@ -575,10 +705,10 @@ pub fn run(cfg: &Cfg, rep: &mut Report) {
         let d = make_data(rng, n, class);
         let seed = rng.u64() | 1;
         rep.distinct(Hasher::new().s("c19").fs(&d.x).u(nb as u64).u(seed).finish(), n >= 2);
-        check_bootstrap(rep, &d, nb, seed);
-        check_jackknife(rep, &d);
-        check_shuffle(rep, &d, seed ^ 0x5555, n <= 200);
-        check_shuffle_two(rep, &d, seed ^ 0xAAAA);
+        check_bootstrap(rep, &d, nb, seed, "");
+        check_jackknife(rep, &d, "");
+        check_shuffle(rep, &d, seed ^ 0x5555, n <= 200, "");
+        check_shuffle_two(rep, &d, seed ^ 0xAAAA, "");
         if i < 6 {
             rep.sample(|| json!({"len": n, "class": regime_of(&d), "n_bootstrap": nb, "alea_seed": seed, "data_first": jf(&d.x[..n.min(8)])}));
         }
@@ -586,6 +716,21 @@ pub fn run(cfg: &Cfg, rep: &mut Report) {
     permutation_census(cfg, rep);
     cell_census(cfg, rep);
     position_census(cfg, rep);
+    inject_family(cfg, rep);
+    pair_census(cfg, rep);
+    for r in ["inject:len=1", "inject:len>=2:distinct"] {
+        for f in ["bootstrap", "jackknife", "shuffle", "shuffle_two"] {
+            rep.require(&format!("cover:{}:{}", f, r), 1);
+        }
+    }
+    rep.require("pairs:len>=1000:anti-monotone", 1);
+    if !cfg.lite {
+        for r in ["inject:len>=2:repeated", "inject:len>=2:special"] {
+            rep.require(r, 1);
+        }
+        rep.require("pairs:len>=1000:anti-monotone", 40_000);
+        rep.require("pairs:len>=1000:independent-perms", 10_000);
+    }
     for r in ["len=1", "len>=2:distinct", "len>=2:repeated", "len>=2:special"] {
         rep.require(r, 1);
         for f in ["bootstrap", "jackknife", "shuffle", "shuffle_two"] {
